@@ -44,6 +44,24 @@ Definition spec_outcome (r : res rerror resolved) : outcome :=
 Definition outcome_of (m : message) : outcome :=
   (m_answers m, m_authority m, h_aa (m_header m), h_rcode (m_header m)).
 
+(* ---- a reply that does not fit the wire format ---- *)
+
+(* "a reply that cannot be serialised is answered with SERVFAIL": [f] stands in for the reply
+   [r] -- same id, QR, opcode, TC, RD, RA and questions; AA clear, RCODE SERVFAIL, no records *)
+Definition servfail_of (r f : message) : Prop :=
+  h_id (m_header f) = h_id (m_header r) /\ h_qr (m_header f) = h_qr (m_header r)
+  /\ h_opcode (m_header f) = h_opcode (m_header r) /\ h_tc (m_header f) = h_tc (m_header r)
+  /\ h_rd (m_header f) = h_rd (m_header r) /\ h_ra (m_header f) = h_ra (m_header r)
+  /\ h_aa (m_header f) = false /\ h_rcode (m_header f) = RCODE_ServerFailure
+  /\ m_questions f = m_questions r
+  /\ m_answers f = [] /\ m_authority f = [] /\ m_additional f = [].
+
+(* the message that goes on the wire for the reply [r]: [r] itself when it can be serialised,
+   its SERVFAIL stand-in when it cannot *)
+Definition sent_for (r sent : message) : Prop :=
+  ((exists bs, encode r = Ok bs) /\ sent = r)
+  \/ ((exists e, encode r = Err e) /\ servfail_of r sent).
+
 (* ---- framing ---- *)
 
 (* TC is bit 1 of octet 2 *)
